@@ -48,7 +48,7 @@ type C08Case struct {
 
 func init() {
 	register("C08",
-		"programs from the core generator with range restrictions removed (all 15 assignment operators x boundary operands 0, +-1, +-2^63, 2^31, 63, 64, -1, huge/tiny floats, division/remainder by zero, negative/oversized shift and rotate counts, cross-type operands, empty and not-set strings), every built-in of builtin.yml called with boundary arguments of its declared types in a scope it allows (STRING arguments also from two grammars with error productions: key=value field lists with unclosed/lone/empty quotes, percent-encoded text with truncated escapes), header sub-field reads/writes over such field lists, lifecycle VCLs with unconditional restart / return(restart) / error / self- and mutual recursion in every sub, self- and mutually-including modules, requests with arbitrary method/path/query/headers (1-3 per simulator), reads of every predefined variable of predefined.yml in the scopes the table allows (and in others), and the same statements through ProcessTestSubroutine (the test runner's entry) in every scope; oracle: the call returns a response or a reported error within the deadline, no panic / fatal error / worker death, vcl_recv entered <= 4 times and restarts <= 3 per request. non-trivial: executes an arithmetic edge case, a built-in with a boundary argument, a recursion, a restart or an include cycle; distinct by case",
+		"programs from the core generator with range restrictions removed (all 15 assignment operators x boundary operands 0, +-1, +-2^63, 2^31, 63, 64, -1, huge/tiny floats, division/remainder by zero, negative/oversized shift and rotate counts, cross-type operands, empty and not-set strings), every built-in of builtin.yml called with boundary arguments of its declared types in a scope it allows (STRING arguments also from two grammars with error productions: key=value field lists with unclosed/lone/empty quotes, percent-encoded text with truncated escapes), header sub-field reads/writes over such field lists, lifecycle VCLs with unconditional restart / return(restart) / error / self- and mutual recursion in every sub (the cycle entered directly or through a subroutine outside it whose name sorts before / after its members), self- and mutually-including modules, requests with arbitrary method/path/query/headers (1-3 per simulator), reads of every predefined variable of predefined.yml in the scopes the table allows (and in others), and the same statements through ProcessTestSubroutine (the test runner's entry) in every scope; oracle: the call returns a response or a reported error within the deadline, no panic / fatal error / worker death, vcl_recv entered <= 4 times and restarts <= 3 per request. non-trivial: executes an arithmetic edge case, a built-in with a boundary argument, a recursion, a restart or an include cycle; distinct by case",
 		genC08, checkC08, 20*time.Second)
 	iso.DeathClassifier["C08"] = func(raw json.RawMessage, kind, stderr string) string {
 		var c C08Case
@@ -334,7 +334,8 @@ func genLifecycleStmt(t *rapid.T) string {
 	case 4:
 		return "error 702 \"msg\";"
 	case 5:
-		return "call rec_a;"
+		// the cycle entered directly or through a subroutine outside it (whose name sorts before / after its members)
+		return rapid.SampledFrom([]string{"call rec_a;", "call rec_a;", "call aa_into_cycle;", "call zz_into_cycle;"}).Draw(t, "cycle-entry")
 	case 6:
 		return "call rec_self;"
 	case 7:
@@ -545,6 +546,8 @@ const c08Helpers = `
 sub rec_a { call rec_b; }
 sub rec_b { call rec_a; }
 sub rec_self { call rec_self; }
+sub aa_into_cycle { call rec_b; }
+sub zz_into_cycle { if (req.http.Never-Set) { call rec_self; } call rec_a; }
 sub fn_rec(INTEGER var.n) STRING { return fn_rec(var.n); }
 sub greet(STRING var.name) { log "hello " var.name; }
 sub add2(INTEGER var.a, INTEGER var.b) { set var.a += var.b; log var.a; }
